@@ -128,7 +128,7 @@ func parseFuncKey(key string) (pkg, recv, name string, ptr bool, ok bool) {
 }
 
 func c09(c *core.Ctx, r *core.Report) {
-	r.Explain("The table of predefined summaries is evaluated from its composite literals (go/constant) and every entry is checked against the toolchain's own standard library as type-checked by go/types. R09.reach: the entry can be found by the lookup stdPackages[pkg(f)][f.String()] (package part of the key is a key of stdPackages mapping to the map that holds the entry; key has the shape f.String() produces; receiver form matches the declared receiver). R09.resolve: the key names an existing function/method (violation only for case-only typos; other unresolved keys are listed as dead weight). R09.align: a flow the table itself asserts (row i < #params, non-empty targets) is not discarded by the loader's range checks (all targets out of range). R09.required: requiredSummaries keys resolve. R09.witness (thorough): a parameter that reaches a result through a pure copy chain in the SSA body must be listed in Rets.")
+	r.Explain("The table of predefined summaries is evaluated from its composite literals (go/constant) and every entry is checked against the toolchain's own standard library as type-checked by go/types. R09.reach: the entry can be found by the lookup stdPackages[pkg(f)][f.String()] (package part of the key is a key of stdPackages mapping to the map that holds the entry; key has the shape f.String() produces; receiver form matches the declared receiver). R09.resolve: the key names an existing function/method (violation only for case-only typos; other unresolved keys are listed as dead weight). R09.align: a flow the table itself asserts (row i < #params, non-empty targets) is not discarded by the loader's range checks (all targets out of range). R09.required: requiredSummaries keys resolve. R09.rows: PopulateGraphFromSummary applies every row of Args through addParamEdgeByPos and every row of Rets through addReturnEdgeByPos (row index bounded by the length of its own table). R09.io: a position whose type has Read([]byte) lists every []byte position in Args, a []byte/string position lists every position whose type has Write([]byte) (io.Reader / io.Writer contracts; the method name fixes the role of a type that is both). R09.resolve.dead (info): unresolved keys that cannot lose a flow. R09.witness (thorough): a parameter that reaches a result through a pure copy chain in the SSA body must be listed in Rets.")
 	r.NotDecided("that every real flow of every summarised function is listed (over-approximation in general); a missing row is only reported when a body-level pure-copy witness exists.")
 	p := c.Pkg("analysis/summaries")
 	if p == nil {
@@ -420,6 +420,7 @@ func c09(c *core.Ctx, r *core.Report) {
 			r.OK("R09.align", e.mapVar+"|"+e.key, pos, d)
 		}
 	}
+	rowsRule(c, r, "R09.rows")
 	// ---- required
 	for _, k := range reqKeys {
 		pk, recv, name, _, ok := parseFuncKey(k)
